@@ -278,6 +278,7 @@ def r4_count_write_pairing(ctx, rule):
         incs = []
         prints = []
         adds = []
+        joined_adds = set()
         for st in walk_stmts(fn.body):
             if isinstance(st, ast.AugAssign) and U(st.target) == 'num_guesses' and isinstance(st.op, ast.Add):
                 if const(st.value) == 1:
@@ -296,6 +297,20 @@ def r4_count_write_pairing(ctx, rule):
                 if isinstance(lst, list) and any(s is p for s in lst):
                     block = lst
             same = [i for i in incs if block is not None and any(s is i for s in block)]
+            if not same and isinstance(par, ast.If) and block is not None:
+                # join-point counting: the branch records `v = 1`, the count is advanced by v after the if/else
+                gp = mod.parents.get(id(par))
+                for field in ('body', 'orelse'):
+                    lst = getattr(gp, field, None)
+                    if isinstance(lst, list) and any(s is par for s in lst):
+                        k = [j for j, s in enumerate(lst) if s is par][0]
+                        for a in adds:
+                            if any(s is a for s in lst[k + 1:]) and isinstance(a.value, ast.Name):
+                                v = a.value.id
+                                sets = [s for s in block if isinstance(s, ast.Assign) and len(s.targets) == 1 and U(s.targets[0]) == v]
+                                if len(sets) == 1 and const(sets[0].value) == 1:
+                                    same = [a]
+                                    joined_adds.add(id(a))
             if len(same) != 1:
                 ok = False
                 ctx.bad(rule, qual, '%d `num_guesses += 1` next to %s' % (len(same), U(p)),
@@ -325,7 +340,15 @@ def r4_count_write_pairing(ctx, rule):
                     lst = getattr(par, field, None)
                     if isinstance(lst, list) and any(x is st for x in lst):
                         block = lst
-                if not any(U(a.value) == nm and any(x is a for x in block) for a in adds):
+                joined = False
+                if isinstance(par, ast.If):
+                    gp = mod.parents.get(id(par))
+                    for field in ('body', 'orelse'):
+                        lst = getattr(gp, field, None)
+                        if isinstance(lst, list) and any(x is par for x in lst):
+                            k = [j for j, x in enumerate(lst) if x is par][0]
+                            joined = any(U(a.value) == nm and any(x is a for x in lst[k + 1:]) for a in adds)
+                if not joined and not any(U(a.value) == nm and any(x is a for x in block) for a in adds):
                     ok = False
                     ctx.bad(rule, qual, 'count returned by %s is not added to num_guesses' % call_name(st.value),
                             'guesses written by the recursion are not reported', None, st)
